@@ -8,6 +8,10 @@
 From Coq Require Import ZArith Bool Field.
 From V Require Import Base.Loops Base.Loops3 Base.Arr Base.FieldSig.
 From V Require Import Gen.CoreAmat Model.FIT Proofs.AmatFIT Proofs.AmatSym.
+From V Require Import Model.VolumeModel Model.ModelHist Proofs.ModelHist.
+From Coq Require Import List QArith.
+From V Require Import Base.ExecQ.
+Import ListNotations.
 Local Open Scope Z_scope.
 
 Section C02.
@@ -100,3 +104,131 @@ Print Assumptions fit_boundary_y.
 Print Assumptions fit_boundary_z.
 Print Assumptions curlcurl_annihilates_gradients.
 Print Assumptions operator_is_symmetric.
+
+(* ------------------------------------------------------------------------ *)
+(* Round 6: the coefficients (eta, zeta) handed to the kernel are a function of
+   the Model's CURRENT arrays.  Model/ModelHist.v is ONE Model object driven
+   through any history of public operations (setter, in-place write through the
+   getter, augmented assignment, VolumeModel construction); an operation can fail.
+   [pos] is the setters' acceptance test; all statements hold for every [pos],
+   every state and every history (induction over the history). *)
+Section C02_history.
+  Context {F : Type} {O : FOps F}.
+  Variable pos : F -> bool.
+
+  (* The VolumeModel built after ANY history h returns the coefficient formula
+     evaluated on the arrays left by the write operations of h alone: earlier
+     VolumeModels, and what the arrays were when they were built, do not matter. *)
+  Theorem volume_model_sees_current_arrays (st : mstate) h a b :
+    snd (run pos st (h ++ [OBuild a b]))
+    = snd (run pos st h) ++ [Coeffs (coeffs (fst (run pos st (erase_builds h))) a b)].
+  Proof. exact (build_sees_current pos st h a b). Qed.
+
+  (* Building VolumeModels leaves no trace: the Model after h is the Model after h
+     with every build erased, and so are the outcomes of all other operations. *)
+  Theorem builds_leave_no_trace (st : mstate) h :
+    fst (run pos st h) = fst (run pos st (erase_builds h)).
+  Proof. exact (run_erase pos st h). Qed.
+  Theorem builds_do_not_alter_other_outcomes (st : mstate) h :
+    filter (fun r => match r with Coeffs _ => false | _ => true end) (snd (run pos st h))
+    = snd (run pos st (erase_builds h)).
+  Proof. exact (run_erase_outcomes pos st h). Qed.
+
+  (* No hidden state: two Models (whatever their histories) with equal current
+     arrays give equal coefficients. *)
+  Theorem coefficients_function_of_current_arrays (st1 st2 : mstate) h1 h2 a b :
+    fst (run pos st1 h1) = fst (run pos st2 h2) ->
+    snd (step pos (fst (run pos st1 h1)) (OBuild a b))
+    = snd (step pos (fst (run pos st2 h2)) (OBuild a b)).
+  Proof. exact (coeffs_of_equal_arrays pos st1 st2 h1 h2 a b). Qed.
+
+  (* Mapping, eps0, volumes, anisotropy case and the presence of mu_r / epsilon_r
+     are fixed at construction: no history changes them. *)
+  Theorem history_preserves_frame (st : mstate) h :
+    frame (fst (run pos st h)) = frame st.
+  Proof. exact (run_frame pos st h). Qed.
+
+  (* Fault paths: a rejected assignment, and any write to a parameter the model was
+     initiated without, leave the Model unchanged; the next VolumeModel is the one
+     of the unchanged arrays. *)
+  Theorem rejected_assignment_leaves_model_unchanged (st : mstate) p vals :
+    snd (step pos st (OSet p vals)) <> Done -> fst (step pos st (OSet p vals)) = st.
+  Proof. exact (set_failed_unchanged pos st p vals). Qed.
+  Theorem write_to_missing_parameter_leaves_model_unchanged (st : mstate) o :
+    snd (step pos st o) = NoneErr -> fst (step pos st o) = st.
+  Proof. exact (none_unchanged pos st o). Qed.
+  Theorem rejected_assignment_then_volume_model (st : mstate) p vals a b :
+    snd (step pos st (OSet p vals)) <> Done ->
+    snd (run pos st [OSet p vals; OBuild a b])
+    = [snd (step pos st (OSet p vals)); Coeffs (coeffs st a b)].
+  Proof. exact (failed_then_build pos st p vals a b). Qed.
+
+  (* Input forms: an accepted assignment through the setter is the same as writing
+     every cell in place through the getter. *)
+  Theorem setter_equals_full_inplace_write (st : mstate) p old vals :
+    getp st p = Some old -> length old = length vals -> forallb pos vals = true ->
+    fst (step pos st (OSet p vals)) = fst (step pos st (OSlice p (map Some vals))).
+  Proof. exact (setter_is_full_slice pos st p old vals). Qed.
+
+  (* Locality: the coefficients of cell i are the documented formulas of the values
+     of cell i; no global property of an array (e.g. "all ones") enters. *)
+  Theorem coefficients_are_cell_local (st : mstate) a b i d :
+    (i < length (m_vol st))%nat ->
+    nth i (coeffs st a b) d
+    = cell_coeff (m_resist st) (case_of st) (is_some (m_eps st)) (is_some (m_mu st))
+                 (m_eps0 st) a b (nth i (m_vol st) 0%F) (nth i (m_x st) 0%F)
+                 (oget (m_y st) i) (oget (m_z st) i) (oget (m_mu st) i) (oget (m_eps st) i).
+  Proof. exact (coeffs_local st a b i d). Qed.
+
+  (* In-place writes through the getter reach the next VolumeModel. *)
+  Theorem inplace_mu_r_reaches_next_zeta (st : mstate) old w a b i d :
+    m_mu st = Some old -> (i < length old)%nat -> (i < length (m_vol st))%nat ->
+    snd (nth i (coeffs (fst (step pos st (OSlice PMu w))) a b) d)
+    = zeta_of true (nth i (m_vol st) 0%F)
+              (match nth i w None with Some v => v | None => nth i old 0%F end).
+  Proof. exact (slice_mu_then_build pos st old w a b i d). Qed.
+  Theorem inplace_property_x_reaches_next_eta (st : mstate) w a b i d :
+    (i < length (m_x st))%nat -> (i < length (m_vol st))%nat ->
+    fst (fst (fst (nth i (coeffs (fst (step pos st (OSlice PX w))) a b) d)))
+    = eta_of a b (m_eps0 st) (is_some (m_eps st)) (nth i (m_vol st) 0%F)
+             (cond_of (m_resist st)
+                (match nth i w None with Some v => v | None => nth i (m_x st) 0%F end))
+             (oget (m_eps st) i).
+  Proof. exact (slice_x_then_build pos st w a b i d). Qed.
+End C02_history.
+
+(* zeta = V / mu_r is V exactly when mu_r = 1 in that cell (any field). *)
+Theorem zeta_is_volume_iff_unit_mu_r {F : Type} {O : FOps F}
+        (Fth : field_theory F0 F1 Fadd Fmul Fsub Fopp Fdiv Finv (@eq F)) (vol mur : F) :
+  vol <> 0%F -> mur <> 0%F -> (zeta_of true vol mur = vol <-> mur = 1%F).
+Proof. exact (zeta_unit_iff Fth vol mur). Qed.
+
+(* Non-vacuity (on Q): mu_r initiated with ones, a VolumeModel, a REJECTED
+   assignment (model and next VolumeModel unchanged), an in-place write of one
+   cell, a VolumeModel (its zeta is V/2 in that cell, V elsewhere), a write to the
+   absent epsilon_r (refused). *)
+Definition qpos_ex (x : Q) : bool := match Qnum x with Zpos _ => true | _ => false end.
+Example history_nonvacuous :
+  snd (run qpos_ex
+         (mkM false (1#8)%Q [2%Q; 3%Q] [1%Q; 1%Q] None None (Some [1%Q; 1%Q]) None)
+         [OBuild 1%Q 1%Q; OSet PMu [1%Q; (-1)%Q]; OBuild 1%Q 1%Q;
+          OSlice PMu [None; Some 2%Q]; OBuild 1%Q 1%Q; OSet PEps [1%Q; 1%Q]])
+  = [Coeffs [((-2)%Q, (-2)%Q, (-2)%Q, 2%Q); ((-3)%Q, (-3)%Q, (-3)%Q, 3%Q)]; Rejected;
+     Coeffs [((-2)%Q, (-2)%Q, (-2)%Q, 2%Q); ((-3)%Q, (-3)%Q, (-3)%Q, 3%Q)]; Done;
+     Coeffs [((-2)%Q, (-2)%Q, (-2)%Q, 2%Q); ((-3)%Q, (-3)%Q, (-3)%Q, (3#2)%Q)]; NoneErr].
+Proof. vm_compute. reflexivity. Qed.
+
+Print Assumptions volume_model_sees_current_arrays.
+Print Assumptions builds_leave_no_trace.
+Print Assumptions builds_do_not_alter_other_outcomes.
+Print Assumptions coefficients_function_of_current_arrays.
+Print Assumptions history_preserves_frame.
+Print Assumptions rejected_assignment_leaves_model_unchanged.
+Print Assumptions write_to_missing_parameter_leaves_model_unchanged.
+Print Assumptions rejected_assignment_then_volume_model.
+Print Assumptions setter_equals_full_inplace_write.
+Print Assumptions coefficients_are_cell_local.
+Print Assumptions inplace_mu_r_reaches_next_zeta.
+Print Assumptions inplace_property_x_reaches_next_eta.
+Print Assumptions zeta_is_volume_iff_unit_mu_r.
+Print Assumptions history_nonvacuous.
